@@ -230,8 +230,8 @@ func panicSite(stack string) string {
 	lines := strings.Split(stack, "\n")
 	for _, l := range lines {
 		l = strings.TrimSpace(l)
-		if strings.HasPrefix(l, "trpc.group/trpc-go/trpc-mcp-go") {
-			if i := strings.Index(l, "("); i > 0 {
+		if strings.HasPrefix(l, "trpc.group/trpc-go/trpc-mcp-go") && !strings.Contains(l, ".Verif") {
+			if i := strings.LastIndex(l, "("); i > 0 { // drop the argument list
 				l = l[:i]
 			}
 			l = strings.TrimPrefix(l, "trpc.group/trpc-go/trpc-mcp-go")
